@@ -397,6 +397,20 @@ impl World {
         Value::Null
     }
 
+    /// CRL number of the TA as the repository has it.
+    fn ta_repo_crl(&self) -> Value {
+        let rm = self.a.krill.repo_manager();
+        let Ok(d) = rm.get_publisher_details(PublisherHandle::from_str("ta").unwrap()) else { return Value::Null };
+        for f in d.current_files {
+            if f.uri.as_str().ends_with(".crl") {
+                if let Ok(c) = rpki::repository::crl::Crl::decode(f.base64.to_bytes()) {
+                    return json!(c.crl_number().to_string());
+                }
+            }
+        }
+        Value::Null
+    }
+
     // ------------------------------------------------------------------ stored commands
 
     fn kv_all(&self, which: &str, ns: &str) -> BTreeMap<String, Value> {
@@ -1490,6 +1504,7 @@ impl World {
             o.insert("ta".into(), p);
             o.insert("signers".into(), self.signers_proj());
             o.insert("mft".into(), self.ta_repo_mft());
+            o.insert("crl".into(), self.ta_repo_crl());
         }
         if self.cms_obs && (!chg.is_empty() || w.first().map(|x| !x.starts_with("send")).unwrap_or(true)) {
             let st = self.cms_state();
